@@ -1,6 +1,7 @@
 package core
 
 import (
+	"go/token"
 	"go/types"
 	"sort"
 
@@ -95,6 +96,316 @@ func (m *Module) Implementers(iface types.Type) []*types.Named {
 // Callees returns the source-level repo functions a call may invoke. Calls into dependencies, the
 // standard library and user callbacks (function-typed fields / parameters) have no callees here.
 func (m *Module) Callees(call *ssa.CallCommon) []*ssa.Function {
+	out := m.calleesBase(call)
+	if len(out) == 0 && !call.IsInvoke() {
+		// a function value that the enclosing function was handed as a parameter: what its call sites hand it
+		return m.handedFuncs(call.Value, 0)
+	}
+	return out
+}
+
+var handedMemo = map[ssa.Value][]*ssa.Function{}
+
+// handedFuncs resolves a function-typed value that is a parameter of an unexported function all of whose uses are
+// plain static calls (or a variable of a closure that captures such a parameter) to the source functions that the call
+// sites hand over: function literals, named functions and method values. Nil if any call site hands over anything
+// else.
+func (m *Module) handedFuncs(v ssa.Value, depth int) []*ssa.Function {
+	if v == nil || depth > 4 {
+		return nil
+	}
+	if _, isFunc := v.Type().Underlying().(*types.Signature); !isFunc {
+		if pt, isPtr := v.Type().Underlying().(*types.Pointer); !isPtr {
+			return nil
+		} else if _, isFunc := pt.Elem().Underlying().(*types.Signature); !isFunc {
+			return nil
+		}
+	}
+	if out, done := handedMemo[v]; done {
+		return out
+	}
+	handedMemo[v] = nil
+	out := m.handedFuncsOf(v, depth)
+	handedMemo[v] = out
+	return out
+}
+
+func (m *Module) handedFuncsOf(v ssa.Value, depth int) []*ssa.Function {
+	single := func(al *ssa.Alloc) ssa.Value {
+		if al.Referrers() == nil {
+			return nil
+		}
+		var stored ssa.Value
+		n := 0
+		for _, r := range *al.Referrers() {
+			if st, ok := r.(*ssa.Store); ok && st.Addr == ssa.Value(al) {
+				stored = st.Val
+				n++
+			}
+		}
+		if n == 1 {
+			return stored
+		}
+		return nil
+	}
+	switch x := v.(type) {
+	case *ssa.Function:
+		if fn := m.Source(x); fn != nil {
+			if _, ok := m.keyOf[fn]; ok {
+				return []*ssa.Function{fn}
+			}
+		}
+		// a method value: the bound-method wrapper stands for the method
+		if obj, ok := x.Object().(*types.Func); ok && obj != nil {
+			if fn := m.Prog.FuncValue(obj); fn != nil {
+				fn = m.Source(fn)
+				if _, ok := m.keyOf[fn]; ok {
+					return []*ssa.Function{fn}
+				}
+			}
+		}
+		return nil
+	case *ssa.MakeClosure:
+		if fn, ok := x.Fn.(*ssa.Function); ok {
+			return m.handedFuncsOf(fn, depth)
+		}
+		return nil
+	case *ssa.UnOp:
+		if x.Op != token.MUL {
+			return nil
+		}
+		switch a := x.X.(type) {
+		case *ssa.Alloc:
+			return m.handedFuncs(single(a), depth+1)
+		case *ssa.FreeVar:
+			return m.handedFuncs(a, depth+1)
+		case *ssa.IndexAddr:
+			// an element of a package-level table of functions
+			if ld, ok := a.X.(*ssa.UnOp); ok && ld.Op == token.MUL {
+				if g, ok := ld.X.(*ssa.Global); ok {
+					return m.tableFuncs(g)
+				}
+			}
+			if g, ok := a.X.(*ssa.Global); ok {
+				return m.tableFuncs(g)
+			}
+		}
+		return nil
+	case *ssa.Extract:
+		if lk, ok := x.Tuple.(*ssa.Lookup); ok {
+			return m.handedFuncsOf(lk, depth)
+		}
+		return nil
+	case *ssa.Lookup:
+		// a package-level map of functions that only the package initialiser fills (a dispatch table)
+		if ld, ok := x.X.(*ssa.UnOp); ok && ld.Op == token.MUL {
+			if g, ok := ld.X.(*ssa.Global); ok {
+				return m.tableFuncs(g)
+			}
+		}
+		return nil
+	case *ssa.FreeVar:
+		closure := x.Parent()
+		parent := closure.Parent()
+		if parent == nil {
+			return nil
+		}
+		idx := -1
+		for i, fv := range closure.FreeVars {
+			if fv == x {
+				idx = i
+			}
+		}
+		for _, b := range parent.Blocks {
+			for _, in := range b.Instrs {
+				mc, ok := in.(*ssa.MakeClosure)
+				if !ok || mc.Fn != ssa.Value(closure) || idx < 0 || idx >= len(mc.Bindings) {
+					continue
+				}
+				bound := mc.Bindings[idx]
+				if al, isAlloc := bound.(*ssa.Alloc); isAlloc {
+					bound = single(al)
+				}
+				return m.handedFuncs(bound, depth+1)
+			}
+		}
+		return nil
+	case *ssa.Parameter:
+		fn := x.Parent()
+		idx := -1
+		for i, prm := range fn.Params {
+			if prm == x {
+				idx = i
+			}
+		}
+		sites := PlainSites(fn)
+		if idx < 0 || len(sites) == 0 {
+			return nil
+		}
+		seen := map[*ssa.Function]bool{}
+		var out []*ssa.Function
+		for _, site := range sites {
+			if idx >= len(site.Call.Args) {
+				return nil
+			}
+			got := m.handedFuncs(site.Call.Args[idx], depth+1)
+			if len(got) == 0 {
+				return nil
+			}
+			for _, g := range got {
+				if !seen[g] {
+					seen[g] = true
+					out = append(out, g)
+				}
+			}
+		}
+		sort.Slice(out, func(i, j int) bool { return m.keyOf[out[i]] < m.keyOf[out[j]] })
+		return out
+	}
+	return nil
+}
+
+// IsHandedCall: the call runs a function value that the call graph resolved through handedFuncs (a parameter, or a
+// captured parameter), not a function named at the call.
+func (m *Module) IsHandedCall(call *ssa.CallCommon) bool {
+	return !call.IsInvoke() && len(m.calleesBase(call)) == 0 && len(m.handedFuncs(call.Value, 0)) > 0
+}
+
+// HandingSites: the static calls of the module that hand fn (a function literal, a named function, a method value) to
+// a function-typed parameter.
+func (m *Module) HandingSites(fn *ssa.Function) []*ssa.Call {
+	var out []*ssa.Call
+	for _, g := range m.Funcs {
+		for _, b := range g.Blocks {
+			for _, in := range b.Instrs {
+				call, ok := in.(*ssa.Call)
+				if !ok || call.Call.IsInvoke() || staticBody(&call.Call) == nil {
+					continue
+				}
+				for _, a := range call.Call.Args {
+					if _, isFunc := a.Type().Underlying().(*types.Signature); !isFunc {
+						continue
+					}
+					switch a.(type) {
+					case *ssa.Function, *ssa.MakeClosure:
+					default:
+						continue
+					}
+					for _, h := range m.handedFuncs(a, 0) {
+						if h == fn {
+							out = append(out, call)
+						}
+					}
+				}
+			}
+		}
+	}
+	return out
+}
+
+// IsDispatchTable: g is a package-level table of functions that only the package initialiser fills.
+func (m *Module) IsDispatchTable(g *ssa.Global) bool { return len(m.tableFuncs(g)) > 0 }
+
+// tableFuncs: the functions held by a package-level map, slice or array that is filled by the package initialiser and
+// written nowhere else in the module (no store to the variable, no update of its elements outside init). Nil otherwise.
+func (m *Module) tableFuncs(g *ssa.Global) []*ssa.Function {
+	pkg := g.Package()
+	if pkg == nil {
+		return nil
+	}
+	init := pkg.Func("init")
+	if init == nil {
+		return nil
+	}
+	// written outside the initialiser?
+	for _, fn := range m.Funcs {
+		if fn == init {
+			continue
+		}
+		for _, b := range fn.Blocks {
+			for _, in := range b.Instrs {
+				switch x := in.(type) {
+				case *ssa.Store:
+					if x.Addr == ssa.Value(g) {
+						return nil
+					}
+					if ia, ok := x.Addr.(*ssa.IndexAddr); ok {
+						if ia.X == ssa.Value(g) {
+							return nil
+						}
+						if ld, ok := ia.X.(*ssa.UnOp); ok && ld.X == ssa.Value(g) {
+							return nil
+						}
+					}
+				case *ssa.MapUpdate:
+					if ld, ok := x.Map.(*ssa.UnOp); ok && ld.X == ssa.Value(g) {
+						return nil
+					}
+				}
+			}
+		}
+	}
+	// what the initialiser puts in
+	var table ssa.Value
+	for _, b := range init.Blocks {
+		for _, in := range b.Instrs {
+			if st, ok := in.(*ssa.Store); ok && st.Addr == ssa.Value(g) {
+				if table != nil {
+					return nil
+				}
+				table = st.Val
+			}
+		}
+	}
+	seen := map[*ssa.Function]bool{}
+	var out []*ssa.Function
+	add := func(v ssa.Value) bool {
+		got := m.handedFuncs(v, 1)
+		if len(got) == 0 {
+			return false
+		}
+		for _, f := range got {
+			if !seen[f] {
+				seen[f] = true
+				out = append(out, f)
+			}
+		}
+		return true
+	}
+	for _, b := range init.Blocks {
+		for _, in := range b.Instrs {
+			switch x := in.(type) {
+			case *ssa.MapUpdate:
+				if table != nil && x.Map == table {
+					if !add(x.Value) {
+						return nil
+					}
+				}
+			case *ssa.Store:
+				// elements of a slice / array literal
+				if ia, ok := x.Addr.(*ssa.IndexAddr); ok {
+					base := ia.X
+					if sl, ok := table.(*ssa.Slice); ok && table != nil {
+						if base == sl.X {
+							if !add(x.Val) {
+								return nil
+							}
+						}
+					}
+					if base == ssa.Value(g) {
+						if !add(x.Val) {
+							return nil
+						}
+					}
+				}
+			}
+		}
+	}
+	sort.Slice(out, func(i, j int) bool { return m.keyOf[out[i]] < m.keyOf[out[j]] })
+	return out
+}
+
+func (m *Module) calleesBase(call *ssa.CallCommon) []*ssa.Function {
 	if call.IsInvoke() {
 		recvT := call.Value.Type()
 		names := ifaceMethodNames(recvT)
